@@ -474,7 +474,15 @@ fn walk_random(root: Random, backend_name: &str, path: &[u64], ops: &[DrawOp]) -
     let mut seeds = vec![];
     let mut cur = root;
     for (lvl, &i) in path.iter().enumerate() {
-        let child = if lvl % 2 == 0 { cur.iter_children().take(i as usize + 1).last().unwrap() } else { (&mut cur).into_iter().take(i as usize + 1).last().unwrap() };
+        // child number i, reached through the different ways the Iterator interface offers (all must agree with i+1 calls of `next`)
+        let n = i as usize;
+        let mut it = if lvl % 2 == 0 { cur.iter_children() } else { (&mut cur).into_iter() };
+        let child = match (lvl / 2 + n) % 4 {
+            0 => it.take(n + 1).last().unwrap(),
+            1 => it.nth(n).unwrap(),
+            2 => it.skip(n).next().unwrap(),
+            _ => { let mut c = it.next().unwrap(); for _ in 0..n { c = it.next().unwrap(); } c }
+        };
         seeds.push(child.config().seed);
         kept &= child.config().name == backend_name;
         cur = child;
@@ -497,13 +505,23 @@ fn stream_case<B: RngCore + SeedableRng + Send + 'static>(via_new: bool, seed: u
     let r = catch(|| {
         let a = walk_random(mk(), name, path, ops);
         let a2 = walk_random(mk(), name, path, ops);
-        let last = a.0.last().copied().unwrap_or(seed);
-        let rf = ref_backend::<B>(last, ops);
-        (a, a2, rf)
+        // reference seeds, independent of RandomIter: child i of a generator seeded s is seeded with the (i+1)-th u64 of the
+        // bare backend seeded s
+        let mut rs: Vec<u64> = vec![];
+        let mut cs = seed;
+        for &i in path {
+            let mut bk = B::seed_from_u64(cs);
+            let mut sd = 0u64;
+            for _ in 0..=i { sd = bk.next_u64(); }
+            rs.push(sd);
+            cs = sd;
+        }
+        let rf = ref_backend::<B>(cs, ops);
+        (a, a2, rf, rs)
     });
     match r {
-        Some((a, a2, rf)) => list(["stream".into(), tagged("impl", render_walk(&a)), tagged("again", render_walk(&a2)),
-            tagged("ref", [tagged("seeds", a.0.iter().map(|s| s.to_string())), render_out(&rf)])]),
+        Some((a, a2, rf, rs)) => list(["stream".into(), tagged("impl", render_walk(&a)), tagged("again", render_walk(&a2)),
+            tagged("ref", [tagged("seeds", rs.iter().map(|s| s.to_string())), render_out(&rf)])]),
         None => "(stream panic panic (ref (seeds) (out)))".into(),
     }
 }
